@@ -17,12 +17,13 @@
   5. `C08_arith_exact`, `C08_div_mod_zero`, `C08_short_circuit_*`, `C08_cond_one_branch`.
 
   Fragment of item 3 (decidable predicate `WfE`): binary operators (all twenty), prefix operators
-  (`not`, `-`, `+`), non-negative integer literals ≤ 2^53, string literals without `\` and `"`,
-  `true`/`false`/`null`, variables (identifiers other than `not`/`true`/`false`/`null`/`nil`), parentheses.
-  The generic statement `C08_parse_spelling` additionally admits ANY operand for which `AtomOk a ta` (or
-  `SimpleOk a ta`) has been shown.  Not covered (missing for the property's full quantifier): `is`/`is not`
-  tests, the conditional operator, attribute / index access, filters, calls, array and hash literals, and the
-  eight syntactic positions (`C08_position`).
+  (`not`, `-`, `+`), tests without arguments (`x is name`; `x is not name` as an admissible spelling of
+  `not (x is name)`), the conditional operator, non-negative integer literals ≤ 2^53, string literals without
+  `\` and `"`, `true`/`false`/`null`, variables (identifiers other than `not`/`true`/`false`/`null`/`nil`),
+  parentheses.  The generic statements `C08_parse_spelling` / `C08_parse_spellingX` additionally accept ANY
+  operand for which `AtomOk a ta` (or `SimpleOk a ta`) has been shown.  Not covered (missing for the property's
+  full quantifier): tests with arguments, attribute / index access, filters, calls, array and hash literals,
+  and the eight syntactic positions (`C08_position`).
 -/
 import TwigProofs.Lemmas.ParseExpr
 import TwigModel.Render
@@ -204,23 +205,31 @@ theorem C08_parse_spelling {e : Expr} {ts rest : List Token} (h : Spells 1 e ts)
     ∀ f, 4 * ts.length + 2 ≤ f → parseExpression f (ts ++ rest) = .ok (e, rest) :=
   ⟨parseExpression_spells h hs _ (exprFuel_ge ts rest), parseExpression_spells h hs⟩
 
+/-- The same at expression level (`SpellsX`): an operator tree, or `c ? t : f` with the condition an operator
+    tree and the branches again expression-level spellings (right-nested conditionals need no parentheses;
+    a conditional in any other place is an operand in parentheses, `simpleOk_parenX`). -/
+theorem C08_parse_spellingX {e : Expr} {ts rest : List Token} (h : SpellsX e ts) (hs : Stop rest = true) :
+    parseExpression (exprFuel (ts ++ rest)) (ts ++ rest) = .ok (e, rest) ∧
+    ∀ f, 4 * ts.length + 2 ≤ f → parseExpression f (ts ++ rest) = .ok (e, rest) :=
+  ⟨parseExpression_spellsX h rest hs _ (exprFuel_ge ts rest), parseExpression_spellsX h rest hs⟩
+
 /- FULL STATEMENT of the property's parser half (NOT proved in this generality; kept visible):
 
      ∀ e : Expr built from literals, variables, attribute / index access, prefix, binary and conditional
        operators, tests and filter applications, ∀ admissible parenthesisation ts of e, ∀ rest with Stop rest,
        parseExpression (exprFuel (ts ++ rest)) (ts ++ rest) = .ok (e, rest).
 
-   Proved below for the fragment `WfE` (binary + prefix operators over literals / variables / parentheses), and in
-   `C08_parse_spelling` for every tree whose leaves are ANY operands with a proved `AtomOk` / `SimpleOk` spelling.
-   Missing: concrete spellings (printer cases + `AtomOk` proofs) for `a.b`, `a[i]`, `a|f(x)`, calls, `[…]`, `{…}`,
-   and the two non-operand forms `x is t` / `c ? t : f`. -/
+   Proved below for the fragment `WfE` (binary + prefix operators, argument-less tests, conditionals over literals /
+   variables / parentheses), and in `C08_parse_spelling(X)` for every tree whose leaves are ANY operands with a proved
+   `AtomOk` / `SimpleOk` spelling.  Missing: concrete spellings (printer cases + `AtomOk` proofs) for `a.b`, `a[i]`,
+   `a|f(x)`, calls, `[…]`, `{…}`, and tests with arguments (`x is divisible by(3)`). -/
 theorem C08_parse_printFull (e : Expr) (h : WfE e = true) (rest : List Token) (hs : Stop rest = true) :
     parseExpression (exprFuel (printFull e ++ rest)) (printFull e ++ rest) = .ok (e, rest) :=
   (C08_parse_spelling (spells_printFull e 1 h) hs).1
 
 theorem C08_parse_printMin (e : Expr) (h : WfE e = true) (rest : List Token) (hs : Stop rest = true) :
     parseExpression (exprFuel (printMin e ++ rest)) (printMin e ++ rest) = .ok (e, rest) :=
-  (C08_parse_spelling (spells_prMin e 1 h) hs).1
+  (C08_parse_spellingX (spellsX_printMin e h) hs).1
 
 /-- minimal and full parenthesisation denote the same tree … -/
 theorem C08_min_eq_full_tree (e : Expr) (h : WfE e = true) (rest : List Token) (hs : Stop rest = true) :
@@ -295,6 +304,44 @@ theorem C08_prefix_binds_tightest {a c : Expr} {ta tc rest : List Token} (ha : S
   refine (C08_parse_spelling (.bin (prec_pos o) (.unary (.simple ha)) (.atom hc ?_)) hs).1
   simp [lvlOperand]; omega
 
+/-- a test has the comparison precedence: `a op x is name` applies the test to `x` alone when `op` binds tighter
+    than comparison is false, i.e. for `or`/`and`: `a and x is defined` = `a and (x is defined)`;
+    for an arithmetic operator the test applies to the whole left side: `a + x is odd` = `(a + x) is odd`;
+    `is not` negates the test -/
+theorem C08_test_precedence {a x : Expr} {ta tx rest : List Token} (ha : AtomOk a ta) (hx : AtomOk x tx)
+    (o : BinOp) (neg : Bool) (name : Bytes) (hn : neg = false → name ≠ b "not") (hs : Stop rest = true) :
+    (o.prec < precCompare →
+      parseExpression (exprFuel ((ta ++ opToks o ++ (tx ++ (isToks neg ++ [tk NAME name]))) ++ rest))
+        ((ta ++ opToks o ++ (tx ++ (isToks neg ++ [tk NAME name]))) ++ rest) =
+        .ok (.binary o a (testExpr neg x name), rest)) ∧
+    (precCompare ≤ o.prec →
+      parseExpression (exprFuel (((ta ++ opToks o ++ tx) ++ (isToks neg ++ [tk NAME name])) ++ rest))
+        (((ta ++ opToks o ++ tx) ++ (isToks neg ++ [tk NAME name])) ++ rest) =
+        .ok (testExpr neg (.binary o a x) name, rest)) := by
+  have h6 := prec_le_six o
+  have h1 := prec_pos o
+  constructor
+  · intro h
+    refine (C08_parse_spelling (.bin h1 (.atom ha ?_) (.test ?_ hn (.atom hx ?_))) hs).1 <;>
+      simp [lvlOperand, precCompare] at * <;> omega
+  · intro h
+    refine (C08_parse_spelling (.test (by decide) hn (.bin h (.atom ha ?_) (.atom hx ?_))) hs).1 <;>
+      simp [lvlOperand, precCompare] at * <;> omega
+
+/-- the conditional operator binds weaker than every binary operator and nests to the right:
+    `a op c ? t : c2 ? t2 : f2` is `(a op c) ? t : (c2 ? t2 : f2)` -/
+theorem C08_cond_weakest_right_nested {a c t c2 t2 f2 : Expr} {ta tc tt tc2 tt2 tf2 rest : List Token}
+    (ha : AtomOk a ta) (hc : AtomOk c tc) (ht : AtomOk t tt) (hc2 : AtomOk c2 tc2) (ht2 : AtomOk t2 tt2)
+    (hf2 : AtomOk f2 tf2) (o : BinOp) (hs : Stop rest = true) :
+    parseExpression (exprFuel (((ta ++ opToks o ++ tc) ++ qTok :: (tt ++ colonTok :: (tc2 ++ qTok :: (tt2 ++ colonTok :: tf2)))) ++ rest))
+      (((ta ++ opToks o ++ tc) ++ qTok :: (tt ++ colonTok :: (tc2 ++ qTok :: (tt2 ++ colonTok :: tf2)))) ++ rest) =
+      .ok (.cond (.binary o a c) t (.cond c2 t2 f2), rest) := by
+  have h6 := prec_le_six o
+  have h7 : (1 : Nat) ≤ lvlOperand := by decide
+  refine (C08_parse_spellingX (.cond (.bin (prec_pos o) (.atom ha ?_) (.atom hc ?_)) (.plain (.atom ht h7))
+    (.cond (.atom hc2 h7) (.plain (.atom ht2 h7)) (.plain (.atom hf2 h7)))) hs).1 <;>
+    simp [lvlOperand] <;> omega
+
 /-! ## 4. Spacing -/
 
 /-- Spelling a token list with any whitespace (`sp[i]` before token `i`, `sp[n]` at the end) lexes back to the
@@ -326,7 +373,7 @@ theorem C08_source_roundtrip (e : Expr) (h : WfE e = true) (sp sp' : List Bytes)
 theorem C08_single_blanks_separate (e : Expr) (h : WfE e = true) :
     Separated (printMin e) (List.replicate (printMin e).length [32]) = true ∧
     Separated (printFull e) (List.replicate (printFull e).length [32]) = true :=
-  ⟨separated_of_spaced _ _ (spaced_single _ (tokOk_prMin e 1 h)),
+  ⟨separated_of_spaced _ _ (spaced_single _ (tokOk_printMin e h)),
    separated_of_spaced _ _ (spaced_single _ (tokOk_printFull e h))⟩
 
 /-! ## 5. Operators on integers, booleans and strings -/
@@ -416,7 +463,24 @@ private def ex3 : Expr :=
   .binary .notIn (.binary .concat (.binary .mul (.binary .add (i 1) (i 2)) (.binary .pow (.unary .neg (v "x")) (i 2)))
     (.str (b "s"))) (v "y")
 
-example : WfE ex1 = true ∧ WfE ex2 = true ∧ WfE ex3 = true := by decide +kernel
+/-- `x is defined and y is not empty ? a + 1 : b ? c : (d ? 1 : 2) * 3` -/
+private def ex4 : Expr :=
+  .cond (.binary .and (.test (v "x") (b "defined") []) (.unary .not (.test (v "y") (b "empty") [])))
+    (.binary .add (v "a") (i 1))
+    (.cond (v "b") (v "c") (.binary .mul (.cond (v "d") (i 1) (i 2)) (i 3)))
+
+example : WfE ex1 = true ∧ WfE ex2 = true ∧ WfE ex3 = true ∧ WfE ex4 = true := by decide +kernel
+example : printMin ex4 = lexExpr (b "x is defined and not (y is empty) ? a + 1 : b ? c : (d ? 1 : 2) * 3") := by decide +kernel
+example : parseExpression (exprFuel (printMin ex4)) (printMin ex4) = .ok (ex4, []) := by
+  have := C08_parse_printMin ex4 (by decide +kernel) [] rfl
+  simpa using this
+example : printFull ex4 =
+    lexExpr (b "(((x is defined) and (not (y is empty))) ? (a + 1) : (b ? c : ((d ? 1 : 2) * 3)))") := by decide +kernel
+-- `is not` is an admissible spelling of `not (… is …)`: the parser returns the same tree
+example : parseExpression (exprFuel (lexExpr (b "y is not empty"))) (lexExpr (b "y is not empty")) =
+    .ok (.unary .not (.test (v "y") (b "empty") []), []) := by with_unfolding_all rfl
+example : parseExpression (exprFuel (lexExpr (b "not (y is empty)"))) (lexExpr (b "not (y is empty)")) =
+    .ok (.unary .not (.test (v "y") (b "empty") []), []) := by with_unfolding_all rfl
 -- the printed forms are what one would write
 example : printMin ex1 = lexExpr (b "1 + 2 * 3 - 4") := by decide +kernel
 example : printFull ex1 = lexExpr (b "((1 + (2 * 3)) - 4)") := by decide +kernel
@@ -441,7 +505,7 @@ example : AtomOk (.int (digitsToNat (b "42"))) [tk NUMBER (b "42")] ∧ digitsTo
   ⟨(simpleOk_int (by decide +kernel) (by decide +kernel)).atomOk, by decide +kernel⟩
 example : AtomOk (.int (digitsToNat (b "0042"))) [tk NUMBER (b "0042")] ∧ digitsToNat (b "0042") = 42 :=   -- leading zeros
   ⟨(simpleOk_int (by decide +kernel) (by decide +kernel)).atomOk, by decide +kernel⟩
-example : AtomOk ex1 (lp :: printMin ex1 ++ [rp]) := atomOk_paren (spells_prMin ex1 1 (by decide +kernel))
+example : AtomOk ex1 (lp :: prMin 1 ex1 ++ [rp]) := atomOk_paren (spells_prMin ex1 1 (Nat.le_refl _) (by decide +kernel))
 -- left association, precedence, parentheses: `8 - 3 - 2`, `1 + 2 * 3`, `(1 + 2) * 3` / `1 + (2 * 3)`
 example : parseExpression (exprFuel (lexExpr (b "8 - 3 - 2"))) (lexExpr (b "8 - 3 - 2")) =
     .ok (.binary .sub (.binary .sub (i 8) (i 3)) (i 2), []) := by with_unfolding_all rfl
